@@ -17,12 +17,16 @@ func init() {
 			mov := sm2Overrides()
 			mov[driver.Module+"/internal/sm2ec.init#1"] = "verifModel_noinit"
 			cs = append(cs, driver.Case{Harness: "verifH_c08_mqv", Pkg: "ecdh", Config: "purego", Params: P(), Overrides: mov, MaxUnwind: 400, TimeoutS: 1200, Portfolio: true, MustReach: []string{"infinity", "finite"}})
+			kov := sm2Overrides()
+			for _, hc := range [][3]int{{0, 0, 0}, {0, 1, 0}, {0, 2, 1}, {1, 1, 0}, {1, 0, 1}} {
+				cs = append(cs, driver.Case{Harness: "verifH_c08_kx_history", Pkg: "sm2", Config: "purego", Params: P("hist", hc[0], "uid", hc[1], "short", hc[2]), Overrides: kov, MaxUnwind: 4000, TimeoutS: 1500, Solver: "cvc5", Portfolio: true, MustReach: []string{"done"}})
+			}
 			return cs
 		},
-		Functions:   []string{"ecdh.(*sm2Curve).sm2mqv, sm2avf, NewPublicKey; (*PrivateKey).SM2MQV, PublicKey", "internal/sm2ec.ImplicitSig, p256OrdAdd (real limb code), SetBytes (fiat range checks)"},
+		Functions:   []string{"sm2.NewKeyExchange, SetPeerParameters, initKeyExchange, (*KeyExchange).ConfirmResponder, mqv, avf, sign, generateSharedKey, CalculateZA, bigIntToBytes (real math/big code; Mul/Mod with symbolic operands uninterpreted)", "ecdh.(*sm2Curve).sm2mqv, sm2avf, NewPublicKey; (*PrivateKey).SM2MQV, PublicKey", "internal/sm2ec.ImplicitSig, p256OrdAdd (real limb code), SetBytes (fiat range checks)"},
 		Assumptions: []string{"abstract prime-order group: points are coordinate pairs, base/variable multiplication and addition uninterpreted, the sum's point-at-infinity flag an opaque function of the operands, curve membership opaque", "results of group operations are assumed to be curve points with canonical coordinates", "multiplication modulo n uninterpreted (commutative)"},
-		Bounds:      map[string]string{"quick": "every valid (s, e, P, R); peer keys: every byte string of 0/1/33/64/65/66 bytes", "thorough": "same"},
-		Outside:     []string{"that initiator and responder derive the same point (ring algebra over Z_n; checked only on random real keys in the native twin)", "sm2.KeyExchange (math/big), its agreement with the ecdh package, confirmation values, ZA and KDF plumbing"},
+		Bounds:      map[string]string{"quick": "ecdh: every valid (s, e, P, R); peer keys: every byte string of 0/1/33/64/65/66 bytes; sm2.KeyExchange: five (history, peer-id form, coordinate length class) cases, every d, rA, PB, RB in the class, key length 16", "thorough": "same"},
+		Outside:     []string{"that initiator and responder derive the same point (ring algebra over Z_n; checked only on random real keys in the native twin)", "sm2.KeyExchange responder side, agreement of the sm2 and ecdh implementations (native twins only), confirmation-value algebra"},
 		Oracle:      "GB/T 32918.3 shared-point expression as data flow",
 	})
 }
